@@ -242,6 +242,30 @@ class Elab:
                     out.add(hwi)
         return sorted(out)
 
+    def expected_hwires_inst(self, t, selection, recursive):
+        """get_hwires(reference of the hierarchical instance t): INSIDE = the wires of its cell (and of everything
+        below it when recursive); OUTSIDE / BOTH = the wires attached outside (and inside) to its pins; ALL = the
+        nets of every wire at or below it and of every wire attached to a pin at or below it"""
+        if selection == 'INSIDE':
+            return self.expected_below('wire', t, recursive)
+        out = set()
+        if selection == 'ALL':
+            for p in self.below(t, strict=False):
+                for hwi in self.items_at[p]['wire']:
+                    out.update(self.cls[hwi])
+                for hp in self.items_at[p]['pin']:
+                    for x in (self.inner_of.get(hp), self.outer_of.get(hp)):
+                        if x is not None:
+                            out.update(self.cls[x])
+            return sorted(out)
+        for hp in self.items_at[t]['pin']:
+            i, o = self.inner_of.get(hp), self.outer_of.get(hp)
+            if selection == 'BOTH' and i is not None:
+                out.add(i)
+            if o is not None:
+                out.add(o)
+        return sorted(out)
+
     def expected_hcables(self, t, selection):
         return sorted(set(h[:-1] for h in self.expected_hwires(t, selection)))
 
